@@ -78,6 +78,81 @@ theorem c_names_cross_kind_collision :
     cFuncName "t_t_i".toList "r-drop-own".toList = cDropOwnName "t_t_i".toList "r".toList := by
   decide +kernel
 
+/-! ## package versions in C namespaces (`interface_identifier`) -/
+
+/-- **The mangled version consists of C identifier characters, for EVERY semver string** (any
+characters of the semver grammar: digits, letters, `.`, `-` of pre-releases, `+` of build metadata,
+in any order and number).  `mangleVersion` applies the `.replace` chain that tools/gen_cident.py
+extracts from `interface_identifier` on every run; the per-character fact is re-proved against the
+regenerated chain (a chain that forgets `-` fails here). -/
+theorem c_version_mangling_is_c_ident (v : List Char) (hv : ∀ c ∈ v, c ∈ semverChars) :
+    ∀ d ∈ mangleVersion v, cIdentChar d = true :=
+  mangleVersion_ident v hv
+
+/-- **The C namespace of an interface is a C identifier**: for lower-case kebab namespace, package and
+interface names (the namespace starting with a letter), any semver version, with or without the
+`exports_` prefix and whether or not the version is included: every character is an identifier
+character and the first one is a lower-case letter. -/
+theorem c_interface_identifier_is_c_ident (inExport multi : Bool) (ns pkg iface : List Char)
+    (ver : Option (List Char)) (c0 : Char) (rest : List Char)
+    (hns : simpleTail true ns = true) (hpkg : simpleTail true pkg = true) (hif : simpleTail true iface = true)
+    (h0 : ns = c0 :: rest) (hc0 : isAsciiLower c0 = true)
+    (hver : ∀ v, ver = some v → ∀ c ∈ v, c ∈ semverChars) :
+    (∀ d ∈ interfaceIdentifier inExport ns pkg ver multi iface, cIdentChar d = true) ∧
+    ∃ c, (interfaceIdentifier inExport ns pkg ver multi iface).head? = some c ∧ isAsciiLower c = true := by
+  have hN := snake_ident ns hns
+  have hP := snake_ident pkg hpkg
+  have hI := snake_ident iface hif
+  have hE : ∀ d ∈ "exports_".toList, cIdentChar d = true := by decide
+  have hV : ∀ d ∈ (match multi, ver with
+      | true, some v => mangleVersion v ++ ['_']
+      | _, _ => ([] : List Char)), cIdentChar d = true := by
+    intro d hd
+    split at hd
+    · rename_i v
+      rcases List.mem_append.mp hd with h | h
+      · exact mangleVersion_ident v (hver v rfl) d h
+      · simp at h; subst h; decide
+    · simp at hd
+  refine ⟨?_, ?_⟩
+  · intro d hd
+    unfold interfaceIdentifier at hd
+    simp only [List.mem_append, List.mem_singleton] at hd
+    rcases hd with ((((((h | h) | h) | h) | h) | h) | h)
+    · cases inExport <;> simp at h; exact hE d (by simpa using h)
+    · exact hN d h
+    · subst h; decide
+    · exact hP d h
+    · subst h; decide
+    · exact hV d h
+    · exact hI d h
+  · unfold interfaceIdentifier
+    cases inExport
+    · have hs : snake ns = ns.map sepU := snake_simple ns hns
+      have ha : isAlnum c0 = true := by
+        simp only [isAlnum]
+        have : c0.toNat < 128 := by
+          simp only [isAsciiLower, Bool.and_eq_true, decide_eq_true_eq] at hc0; omega
+        simp [this, hc0]
+      refine ⟨c0, ?_, hc0⟩
+      rw [hs, h0]
+      simp [sepU, ha]
+    · exact ⟨'e', by simp, by decide⟩
+
+/-- Non-vacuity: `my:dep/a@1.0.0-rc.1+exp.sha-5114f85` among several versions, exported. -/
+example : interfaceIdentifier true "my".toList "dep".toList (some "1.0.0-rc.1+exp.sha-5114f85".toList) true "a".toList
+    = "exports_my_dep_1_0_0_rc_1_exp_sha_5114f85_a".toList := by decide +kernel
+
+/- Full statement: distinct versions of a package get distinct C namespaces.  False: -/
+
+/-- **The version mangling is not injective**: the distinct pre-release versions `1.0.0-a.1` and
+`1.0.0-a-1` (both valid, both may be imported by one world) are mangled to the same text, so all
+their C identifiers coincide (the generator then panics with "duplicate symbols"). -/
+theorem c_version_mangling_not_injective :
+    mangleVersion "1.0.0-a.1".toList = mangleVersion "1.0.0-a-1".toList ∧
+    "1.0.0-a.1".toList ≠ "1.0.0-a-1".toList := by
+  decide +kernel
+
 /-- Temporaries of a generated function body are fresh w.r.t. every parameter name and every earlier
 temporary (`FunctionBindgen::new` inserts the parameters into `locals`, every temporary is
 `locals.tmp(..)`): C26 at the C backend.  (The fixed local names `ret_area`, `base`, `e`, `map_key`,
